@@ -128,7 +128,10 @@ def check(repo: Repo) -> Result:
 def precedence(repo, res):
     r2 = res.rule("C14-R2", "resolution precedence: table hit before prefix split; alias map before fresh symbol; one prefix attempt, only for prefixable entries", floor=6)
     reg = repo.mod(REG)
-    fn = reg.func("_lookup_unit_symbol")
+    from rules.anchors import lookup_symbol
+
+    fn = lookup_symbol(repo)
+    LKN = fn.name
     res.fn(fn)
     sym, lut = fn.params
     first = fn.body[0]
@@ -169,8 +172,8 @@ def precedence(repo, res):
     # UnitRegistry.__getitem__/__contains__ use the same lookup
     for m in ("__getitem__", "__contains__"):
         f = reg.func(f"UnitRegistry.{m}")
-        calls = [norm(c) for c in ast.walk(f.node) if isinstance(c, ast.Call) and norm(c.func) == "_lookup_unit_symbol"]
-        res.check(len(calls) == 1 and calls[0] == f"_lookup_unit_symbol(str({f.params[1]}), self.lut)", f"registry.{m}", f.where(), "registry lookups resolve prefixed names through the same routine on the registry's own table", found=calls, rid=r2)
+        calls = [norm(c) for c in ast.walk(f.node) if isinstance(c, ast.Call) and norm(c.func) == LKN]
+        res.check(len(calls) == 1 and calls[0] == f"{LKN}(str({f.params[1]}), self.lut)", f"registry.{m}", f.where(), "registry lookups resolve prefixed names through the same routine on the registry's own table", found=calls, rid=r2)
 
 
 def namespaces(repo, res):
